@@ -59,7 +59,8 @@ class Ctx:
         if "SchemaError" not in self.m.classes:
             raise AnalysisError("anchor vanished: class SchemaError")
         self.roots = [self.m.func("parse_string"), self.m.func("parse_file")]
-        self.closure = P.closure(self.roots)
+        # _validate is analysed even if an edit disconnects it (R-ASSUME-GUAR then reports the missing call)
+        self.closure = P.closure(self.roots + [self.m.func("_validate")])
         self.noret = P._noret(self.m)
 
     def sites_of(self, fn):
@@ -114,6 +115,14 @@ def line_ok(expr, fn, cx, seen=None, depth=0):
             return None
         seen.add((scope, expr.id))
         stores = P.stores_of(scope).get(expr.id, [])
+        if expr.id in scope.params and stores:
+            # parameter that is also re-bound: both the callers' values and the local bindings must be lines
+            for caller, call in cx.sites_of(scope):
+                a = P.bind_args(call, scope).get(expr.id)
+                if a is not None and caller is not scope:
+                    r = line_ok(a, caller, cx, seen, depth + 1)
+                    if r:
+                        return f"{caller.qual}: {r}"
         if expr.id in scope.params and not stores:
             sites = cx.sites_of(scope)
             if not sites:
@@ -152,6 +161,17 @@ def line_ok(expr, fn, cx, seen=None, depth=0):
                 r = line_ok(st.value, scope, cx, seen, depth + 1)
                 if r:
                     return r
+            elif isinstance(st, ast.Tuple) and isinstance(st._parent, ast.Assign) and isinstance(st._parent.value, ast.Call) \
+                    and isinstance(st._parent.value.func, ast.Attribute) and st._parent.value.func.attr == "pop" \
+                    and isinstance(st._parent.value.func.value, ast.Name):
+                # unpacked from a work list: every tuple ever put on the list must carry a line in that position
+                el = _list_elem_exprs(st._parent.value.func.value.id, scope)
+                if not el or not all(isinstance(e, ast.Tuple) and len(e.elts) == len(st.elts) for e in el):
+                    return f"`{expr.id}` is unpacked from a list whose elements are not all {len(st.elts)}-tuples"
+                for e in el:
+                    r = line_ok(e.elts[s._idx], scope, cx, seen, depth + 1)
+                    if r:
+                        return r
             else:
                 return f"`{expr.id}` is bound by something other than a plain assignment"
         return None
@@ -629,7 +649,7 @@ def token_cursor(cx):
 
 # ============================================================================ R-EXC-OPS
 SAFE_BUILTINS = {"isinstance", "len", "bool", "list", "tuple", "set", "frozenset", "str", "dict", "any", "all", "sum",
-                 "repr", "sorted", "super", "super.__init__"}
+                 "repr", "sorted", "reversed", "super", "super.__init__"}
 SAFE_METHODS = {"get", "values", "items", "keys", "append", "extend", "add", "strip", "join", "match", "group", "end",
                 "start", "startswith", "endswith", "update", "setdefault"}
 IO_CALLS = {"open", "read"}          # allowed in parse_file only: I/O errors are outside the property's quantifier
@@ -1289,17 +1309,17 @@ def rule_cover(res, cx):
             for k, v in s.keys:
                 if k[0] == "in" and v and _strip(k[2]) == f"Schema.{T}":
                     A = _strip(k[1])
-                    blk = getattr(s.anchor._parent, s.anchor._field)
-                    a = s.anchor
-                    while not isinstance(a._idx, int) or a not in blk:
-                        a = a._parent
-                        blk = getattr(a._parent, a._field) if isinstance(a._idx, int) else blk
                     owner = Site(s.anchor._fn, s.anchor, cx) if s.subst else s
-                    for later in blk[a._idx + 1:]:
-                        if isinstance(later, ast.Assign) and isinstance(later.targets[0], ast.Subscript) and \
-                                P.table_of(later.targets[0].value) == T and \
-                                _strip(owner.canon(P.text(later.targets[0].slice))) == A:
-                            return True
+                    cur = s.anchor
+                    while isinstance(cur, ast.stmt) and isinstance(cur._idx, int):
+                        for later in getattr(cur._parent, cur._field)[cur._idx + 1:]:
+                            if isinstance(later, ast.Assign) and isinstance(later.targets[0], ast.Subscript) and \
+                                    P.table_of(later.targets[0].value) == T and \
+                                    _strip(owner.canon(P.text(later.targets[0].slice))) == A:
+                                return True
+                        cur = cur._parent
+                        if not isinstance(cur, ast.If):
+                            break
             return False
         return pred
 
@@ -1324,7 +1344,16 @@ def rule_cover(res, cx):
         reads_table = any(P.table_of(n) == "groups" for n in m.nodes(fn))
         if not (reads_group and reads_table):
             return False
-        return any(k[0] == "in" and v and k[2].isidentifier() and grows(fn, k[2], k[1]) for k, v in s.know.K.items())
+        def looked_up(A):       # the walk looks the same name up in the groups table
+            for n in m.nodes(fn):
+                if isinstance(n, ast.Subscript) and P.table_of(n.value) == "groups" and P.text(n.slice) == A:
+                    return True
+                if isinstance(n, ast.Call) and isinstance(n.func, ast.Attribute) and n.func.attr == "get" and \
+                        P.table_of(n.func.value) == "groups" and n.args and P.text(n.args[0]) == A:
+                    return True
+            return False
+        return any(k[0] == "in" and v and k[2].isidentifier() and grows(fn, k[2], k[1]) and looked_up(k[1])
+                   for k, v in s.know.K.items())
 
     def dup_attr(s):
         if s.subst:
